@@ -325,7 +325,8 @@ package keeper
 //@ func (k Keeper) burnStakedTokens(ctx sdk.Ctx, amt sdk.Int) (err sdk.Error)
 //@   props C07 C04 C02
 //@   uses bankinv
-//@   modifies acct.id, acct.next, acct.coins, acct.addr, auth.bal[modaddr("staked_tokens_pool")], auth.has[modaddr("staked_tokens_pool")], auth.supply
+//@   modifies acct.id, acct.next, acct.coins, acct.addr, auth.bal[modaddr("staked_tokens_pool")], auth.has[modaddr("staked_tokens_pool")], auth.supply, auth.total
+//@   ensures [conserved@C02] forall d Str :: amt(auth.supply, d) - auth.total[d] == amt(old(auth.supply), d) - old(auth.total[d])
 //@   ensures err == nil ==> val(amt) > 0
 //@   ensures [success] val(amt) > 0 && modreg("staked_tokens_pool") && modperm("staked_tokens_pool", "burner") && amt(old(auth.bal[modaddr("staked_tokens_pool")]), pp_denom) >= val(amt) ==> err == nil
 //@   ensures err == nil ==> amt(auth.bal[modaddr("staked_tokens_pool")], pp_denom) == amt(old(auth.bal[modaddr("staked_tokens_pool")]), pp_denom) - val(amt) && amt(auth.supply, pp_denom) == amt(old(auth.supply), pp_denom) - val(amt)
@@ -439,11 +440,12 @@ package keeper
 //@
 // C07/C06: a forced unstake burns the whole remaining stake from pool and supply and leaves the record Unstaked with 0 tokens
 //@ func (k Keeper) ForceValidatorUnstake(ctx sdk.Ctx, validator types.Validator) (err sdk.Error)
-//@   props C07 C06 C04 C05
+//@   props C07 C06 C04 C05 C02
 //@   uses bankinv valinv idxinv queueinv
 //@   requires pos.has[validator.Address] && pos.vals[validator.Address] == validator && (validator.Status != 0 || val(validator.StakedTokens) == 0)
 //@   requires modreg("staked_tokens_pool") && modperm("staked_tokens_pool", "burner") && amt(auth.bal[modaddr("staked_tokens_pool")], pp_denom) >= val(validator.StakedTokens)   // C04: the pool backs the stake
-//@   modifies acct.id, acct.next, acct.coins, acct.addr, auth.bal[modaddr("staked_tokens_pool")], auth.has[modaddr("staked_tokens_pool")], auth.supply
+//@   modifies acct.id, acct.next, acct.coins, acct.addr, auth.bal[modaddr("staked_tokens_pool")], auth.has[modaddr("staked_tokens_pool")], auth.supply, auth.total
+//@   ensures [conserved@C02] forall d Str :: amt(auth.supply, d) - auth.total[d] == amt(old(auth.supply), d) - old(auth.total[d])
 //@   modifies pos.vals[validator.Address], pos.has[validator.Address], pos.idx[validator.Address], pos.stakesum, pos.queue[validator.UnstakingCompletionTime]
 //@   dead ret1
 //@   ensures [unstaked] err == nil && pos.has[validator.Address] && pos.vals[validator.Address].Status == 0 && val(pos.vals[validator.Address].StakedTokens) == 0
@@ -491,7 +493,8 @@ package keeper
 //@   uses bankinv valinv idxinv queueinv mininv
 //@   requires pp_unstaking_time >= 0 && pp_minstake >= 0 && address != nil && power >= 0 && val(slashFactor) <= pow10(18)
 //@   requires modreg("staked_tokens_pool") && modperm("staked_tokens_pool", "burner") && amt(auth.bal[modaddr("staked_tokens_pool")], pp_denom) >= pos.stakesum   // C04: the pool backs the stake
-//@   modifies acct.id, acct.next, acct.coins, acct.addr, auth.bal[modaddr("staked_tokens_pool")], auth.has[modaddr("staked_tokens_pool")], auth.supply
+//@   modifies acct.id, acct.next, acct.coins, acct.addr, auth.bal[modaddr("staked_tokens_pool")], auth.has[modaddr("staked_tokens_pool")], auth.supply, auth.total
+//@   ensures [conserved@C02] forall d Str :: amt(auth.supply, d) - auth.total[d] == amt(old(auth.supply), d) - old(auth.total[d])
 //@   modifies pos.vals[address], pos.has[address], pos.idx[address], pos.stakesum, pos.queue[pos.vals[address].UnstakingCompletionTime]
 //@   dead ret4
 //@   instance rhe_scaled(power * 1000000, val(slashFactor))
@@ -519,12 +522,14 @@ package keeper
 // C07/C04: at BeginBlock every queued burn is applied once as a slash of the validator's current consensus power and the
 // queue is emptied; only the staked pool and the supply lose tokens, by the same amount, and the pool keeps backing the stake.
 //@ func (k Keeper) burnValidators(ctx sdk.Ctx)
-//@   props C07 C04
+//@   props C07 C04 C02
 //@   uses bankinv valinv idxinv queueinv mininv burninv
 //@   requires pp_unstaking_time >= 0 && pp_minstake >= 0 && modreg("staked_tokens_pool") && modperm("staked_tokens_pool", "burner")
 //@   requires amt(auth.bal[modaddr("staked_tokens_pool")], pp_denom) >= pos.stakesum     // C04
 //@   requires forall a Bytes :: pos.burnq[a] ==> pos.has[a] && a != nil && pos.burns[a] <= pow10(18)
-//@   modifies acct.id, acct.next, acct.coins, acct.addr, auth.bal[modaddr("staked_tokens_pool")], auth.has[modaddr("staked_tokens_pool")], auth.supply
+//@   modifies acct.id, acct.next, acct.coins, acct.addr, auth.bal[modaddr("staked_tokens_pool")], auth.has[modaddr("staked_tokens_pool")], auth.supply, auth.total
+//@   ensures [conserved@C02] forall d Str :: amt(auth.supply, d) - auth.total[d] == amt(old(auth.supply), d) - old(auth.total[d])
+//@   loop 1 invariant forall d Str :: amt(auth.supply, d) - auth.total[d] == amt(old(auth.supply), d) - old(auth.total[d])
 //@   modifies pos.vals, pos.has, pos.idx, pos.stakesum, pos.queue, pos.burns, pos.burnq, pit.pos, pit.len, pit.key, pit.val, pit.at, pit.sum, pit.mpos
 //@   loop 1 frame
 //@   loop 1 decreases pit.len[iterator] - pit.pos[iterator]
@@ -569,12 +574,13 @@ package keeper
 // that slot, and punishment (slash + jail + window reset) exactly when past start height + window, over the
 // threshold, known and not jailed
 //@ func (k Keeper) handleValidatorSignature(ctx sdk.Ctx, addr crypto.Address, power int64, signed bool)
-//@   props C08
+//@   props C08 C02
 //@   uses bankinv valinv idxinv queueinv mininv
 //@   requires pp_window > 0 && pp_unstaking_time >= 0 && pp_minstake >= 0 && addr != nil && power >= 0 && 0 <= pp_slash_downtime && pp_slash_downtime <= pow10(18)
 //@   requires pos.sinfohas[addr] ==> pos.sinfo[addr].IndexOffset >= 0 && pos.sinfo[addr].IndexOffset < 9223372036854775807 && pos.sinfo[addr].MissedBlocksCounter > 0 - 9223372036854775807 && pos.sinfo[addr].MissedBlocksCounter < 9223372036854775807
 //@   requires (pos.sinfohas[addr] ==> 0 <= pos.sinfo[addr].StartHeight && pos.sinfo[addr].StartHeight + pp_window <= 9223372036854775807) && 0 <= rhe(pp_minsigned_raw * pp_window, pow10(18)) && rhe(pp_minsigned_raw * pp_window, pow10(18)) <= pp_window
-//@   modifies acct.id, acct.next, acct.coins, acct.addr, auth.bal[modaddr("staked_tokens_pool")], auth.has[modaddr("staked_tokens_pool")], auth.supply
+//@   modifies acct.id, acct.next, acct.coins, acct.addr, auth.bal[modaddr("staked_tokens_pool")], auth.has[modaddr("staked_tokens_pool")], auth.supply, auth.total
+//@   ensures [conserved@C02] forall d Str :: amt(auth.supply, d) - auth.total[d] == amt(old(auth.supply), d) - old(auth.total[d])
 //@   requires modreg("staked_tokens_pool") && modperm("staked_tokens_pool", "burner") && amt(auth.bal[modaddr("staked_tokens_pool")], pp_denom) >= pos.stakesum   // C04: the pool backs the stake
 //@   modifies pos.vals[addr], pos.has[addr], pos.idx[addr], pos.stakesum, pos.sinfo[addr], pos.sinfohas[addr], pos.missed[addr], pos.queue[pos.vals[addr].UnstakingCompletionTime]
 //@   modifies pit.pos, pit.len, pit.key, pit.val, pit.at, pit.sum, pit.mpos     // clearMissedArray walks the ring with an iterator
@@ -608,7 +614,8 @@ package keeper
 //@   props C10 C02 C04
 //@   uses bankinv
 //@   requires address != modaddr("staked_tokens_pool") && val(amount) >= 0
-//@   modifies acct.id, acct.next, acct.coins, acct.addr, auth.bal[modaddr("staked_tokens_pool")], auth.has[modaddr("staked_tokens_pool")], auth.bal[address], auth.has[address], auth.supply
+//@   modifies acct.id, acct.next, acct.coins, acct.addr, auth.bal[modaddr("staked_tokens_pool")], auth.has[modaddr("staked_tokens_pool")], auth.bal[address], auth.has[address], auth.supply, auth.total
+//@   ensures [conserved@C02] forall d Str :: amt(auth.supply, d) - auth.total[d] == amt(old(auth.supply), d) - old(auth.total[d])
 //@   ensures [supply] amt(auth.supply, pp_denom) - amt(old(auth.supply), pp_denom) == amt(auth.bal[address], pp_denom) - amt(old(auth.bal[address]), pp_denom) + amt(auth.bal[modaddr("staked_tokens_pool")], pp_denom) - amt(old(auth.bal[modaddr("staked_tokens_pool")]), pp_denom)
 //@   ensures [pool] res.Code == 0 ==> amt(auth.bal[modaddr("staked_tokens_pool")], pp_denom) == amt(old(auth.bal[modaddr("staked_tokens_pool")]), pp_denom)
 //@   ensures [recipient] res.Code == 0 ==> amt(auth.bal[address], pp_denom) == amt(old(auth.bal[address]), pp_denom) + val(amount)
@@ -618,11 +625,13 @@ package keeper
 // C10: at BeginBlock every queued award is minted to its address exactly once and the queue is emptied.
 // The iterator is the ASSUMED snapshot model below (pit.*): it lists each queued address once with its amount.
 //@ func (k Keeper) mintValidatorAwards(ctx sdk.Ctx)
-//@   props C10
+//@   props C10 C02
 //@   uses bankinv awardinv
 //@   requires modreg("staked_tokens_pool") && modperm("staked_tokens_pool", "minter")
 //@   requires forall a Bytes :: pos.awardq[a] ==> a != modaddr("staked_tokens_pool") && pos.awards[a] >= 0
-//@   modifies acct.id, acct.next, acct.coins, acct.addr, auth.bal, auth.has, auth.supply, pos.awards, pos.awardq, pos.awardsum, pit.pos, pit.len, pit.key, pit.val, pit.at, pit.sum, pit.mpos
+//@   modifies acct.id, acct.next, acct.coins, acct.addr, auth.bal, auth.has, auth.supply, auth.total, pos.awards, pos.awardq, pos.awardsum, pit.pos, pit.len, pit.key, pit.val, pit.at, pit.sum, pit.mpos
+//@   ensures [conserved@C02] forall d Str :: amt(auth.supply, d) - auth.total[d] == amt(old(auth.supply), d) - old(auth.total[d])
+//@   loop 1 invariant forall d Str :: amt(auth.supply, d) - auth.total[d] == amt(old(auth.supply), d) - old(auth.total[d])
 //@   loop 1 frame
 //@   loop 1 decreases pit.len[iterator] - pit.pos[iterator]
 //@   loop 1 invariant 0 <= pit.pos[iterator] && pit.pos[iterator] <= pit.len[iterator]
@@ -657,12 +666,13 @@ package keeper
 // tombstoned) burns the offender's whole remaining stake, leaves it Unstaked with 0 tokens, jailed and tombstoned
 // until DoubleSignJailEndTime; evidence older than MaxEvidenceAge changes nothing at all.
 //@ func (k Keeper) handleDoubleSign(ctx sdk.Ctx, addr crypto.Address, infractionHeight int64, timestamp time.Time, power int64)
-//@   props C07 C09
+//@   props C07 C09 C02
 //@   uses bankinv valinv idxinv queueinv mininv
 //@   requires pp_unstaking_time >= 0 && pp_minstake >= 0 && addr != nil && power >= 0 && 0 <= pp_slash_doublesign && pp_slash_doublesign <= pow10(18)
 //@   requires abs(ctx_time(ctx)) < pow2(62) && abs(timestamp) < pow2(62) && infractionHeight > 0 - 9223372036854775807
 //@   requires modreg("staked_tokens_pool") && modperm("staked_tokens_pool", "burner") && amt(auth.bal[modaddr("staked_tokens_pool")], pp_denom) >= pos.stakesum   // C04
-//@   modifies acct.id, acct.next, acct.coins, acct.addr, auth.bal[modaddr("staked_tokens_pool")], auth.has[modaddr("staked_tokens_pool")], auth.supply
+//@   modifies acct.id, acct.next, acct.coins, acct.addr, auth.bal[modaddr("staked_tokens_pool")], auth.has[modaddr("staked_tokens_pool")], auth.supply, auth.total
+//@   ensures [conserved@C02] forall d Str :: amt(auth.supply, d) - auth.total[d] == amt(old(auth.supply), d) - old(auth.total[d])
 //@   modifies pos.vals[addr], pos.has[addr], pos.idx[addr], pos.stakesum, pos.sinfo[addr], pos.sinfohas[addr], pos.queue[pos.vals[addr].UnstakingCompletionTime]
 //@   ensures [ignored] ctx_time(ctx) - timestamp > pp_max_evidence_age ==> unchanged(pos, auth)
 //@   ensures [punished] ctx_time(ctx) - timestamp <= pp_max_evidence_age ==> pos.has[addr] && pos.vals[addr].Status == 0 && val(pos.vals[addr].StakedTokens) == 0 && pos.vals[addr].Jailed
@@ -768,7 +778,7 @@ package keeper
 // One BeginBlock: fees of the previous block to its proposer, queued awards minted once, queued burns applied once,
 // the new proposer recorded, every vote accounted, every double-sign evidence handled.
 //@ func BeginBlocker(ctx sdk.Ctx, req abci.RequestBeginBlock, k Keeper)
-//@   props C10 C04 C07 C08
+//@   props C10 C04 C07 C08 C02
 //@   uses bankinv valinv idxinv queueinv mininv awardinv burninv
 //@   requires pp_window > 0 && pp_unstaking_time >= 0 && pp_minstake >= 0 && 0 <= pp_slash_downtime && pp_slash_downtime <= pow10(18) && 0 <= pp_slash_doublesign && pp_slash_doublesign <= pow10(18)
 //@   requires 0 <= rhe(pp_minsigned_raw * pp_window, pow10(18)) && rhe(pp_minsigned_raw * pp_window, pow10(18)) <= pp_window
@@ -783,6 +793,10 @@ package keeper
 //@   requires forall i int :: 0 <= i && i < len(req.LastCommitInfo.Votes) ==> req.LastCommitInfo.Votes[i].Validator.Address != nil && req.LastCommitInfo.Votes[i].Validator.Power >= 0
 //@   requires forall i int :: 0 <= i && i < len(req.ByzantineValidators) ==> req.ByzantineValidators[i].Validator.Address != nil && req.ByzantineValidators[i].Validator.Power >= 0 && abs(req.ByzantineValidators[i].Time) < pow2(62) && req.ByzantineValidators[i].Height > 0 - 9223372036854775807
 //@   modifies everything
+// C02 at block level: whatever BeginBlocker mints, burns and moves, recorded supply minus the sum of all balances is preserved
+//@   ensures [conserved@C02] forall d Str :: amt(auth.supply, d) - auth.total[d] == amt(old(auth.supply), d) - old(auth.total[d])
+//@   loop 1 invariant forall d Str :: amt(auth.supply, d) - auth.total[d] == amt(old(auth.supply), d) - old(auth.total[d])
+//@   loop 2 invariant forall d Str :: amt(auth.supply, d) - auth.total[d] == amt(old(auth.supply), d) - old(auth.total[d])
 //@   loop 1 frame
 //@   loop 2 frame
 //@   loop 1 invariant 0 - 1 <= #rangeindex && #rangeindex < len(req.LastCommitInfo.Votes)
